@@ -20,13 +20,18 @@ def readingsOf : List (Ev τ) → List τ
   | [] => []
   | .t r :: es => r :: readingsOf es
   | .x r :: es => r :: readingsOf es
-  | _ :: es => readingsOf es
+  | .s _ :: es => readingsOf es
+  | .c _ :: es => readingsOf es
+  | .o _ :: es => readingsOf es
 
 /-- the clock readings the timer itself made -/
 def timerReadingsOf : List (Ev τ) → List τ
   | [] => []
   | .t r :: es => r :: timerReadingsOf es
-  | _ :: es => timerReadingsOf es
+  | .x _ :: es => timerReadingsOf es
+  | .s _ :: es => timerReadingsOf es
+  | .c _ :: es => timerReadingsOf es
+  | .o _ :: es => timerReadingsOf es
 
 /-- never early, scanning form: `F` = elapsed real time so far, `ℓ` = last reading so far;
 cycle `k ≥ 1` begins only when `k * tock ≤ F` -/
@@ -35,6 +40,7 @@ def neverEarlyFrom (tock : τ) : τ → τ → List (Ev τ) → Prop
   | F, ℓ, .t r :: es => neverEarlyFrom tock (F + max 0 (r - ℓ)) r es
   | F, ℓ, .x r :: es => neverEarlyFrom tock (F + max 0 (r - ℓ)) r es
   | F, ℓ, .s _ :: es => neverEarlyFrom tock F ℓ es
+  | F, ℓ, .o _ :: es => neverEarlyFrom tock F ℓ es
   | F, ℓ, .c k :: es => (1 ≤ k → (k : τ) * tock ≤ F) ∧ neverEarlyFrom tock F ℓ es
 
 /-- lossless, scanning form: `E` = elapsed real time the timer could see (over its own readings), `lt` = its last
@@ -45,6 +51,7 @@ def losslessFrom (tock : τ) : τ → τ → Nat → List (Ev τ) → Prop
   | _, _, _, [] => True
   | E, lt, k, .t r :: es => losslessFrom tock (E + max 0 (r - lt)) r k es
   | E, lt, k, .x _ :: es => losslessFrom tock E lt k es
+  | E, lt, k, .o _ :: es => losslessFrom tock E lt k es
   | E, lt, k, .s d :: es => d = max 0 (((k + 1 : Nat) : τ) * tock - E) ∧ losslessFrom tock E lt k es
   | E, lt, _, .c k :: es => (1 ≤ k → (k : τ) * tock ≤ E) ∧ losslessFrom tock E lt k es
 
